@@ -157,7 +157,13 @@ def prepare(res, spec):
         res.proof_notes.append("fact extraction (translator) failed: " + log[-2000:])
     # the property's own module (with everything it imports) and the model driver: a property is not
     # reported as unproved because a theorem of another property stopped checking
-    ok, log = C.lake_build([spec["mod"], "driver"])
+    mods = [spec["mod"], "driver"]
+    if spec.get("engine") == "hist" and spec["mod"] != "IpamVerif.Props.C16":
+        # the System model executes one work item or handler at a time: it is a model of this code only while every
+        # path to the allocator's state holds its mutex from the first access to the last (C15 / C16).  The regenerated
+        # lock table is therefore an obligation of every history property (kernel-decided in Props/C16).
+        mods.append("IpamVerif.Props.C16")
+    ok, log = C.lake_build(mods)
     if not ok:
         res.proof_ok = False
         # name the failing modules / theorems
@@ -368,6 +374,23 @@ def correspond(res, spec):
     if spec["judge"][0] in ("facts", "conc"):
         facts_and_conc(res, spec)
         return
+    if spec.get("engine") == "hist":
+        # model validity (see prepare): exhibit the offending call path when the lock discipline is broken
+        ft = factmod.load()
+        if ft is not None:
+            for b in factmod.offending_paths(ft)[:3]:
+                d = os.path.join(C.WORK, "replays")
+                os.makedirs(d, exist_ok=True)
+                rp = os.path.join(d, f"{res.pid}-lockpath-{len(res.violations)}.txt")
+                with open(rp, "w") as fh:
+                    fh.write(f"# property {res.pid}: the one-item-at-a-time model no longer describes this code - allocator state is reached outside the mutex,\n"
+                             f"# so another worker or handler can run between the steps of one item (interleavings the property quantifies over)\n")
+                    fh.write(f"kind: {b['kind']}\npath: {' -> '.join(b['path'])}\n")
+                    if b.get("pos"):
+                        fh.write(f"at: {b['pos']}\n")
+                    for w in b.get("why", []):
+                        fh.write(f"why: {w}\n")
+                res.violations.append(dict(msg=f"work items are no longer atomic ({b['kind']}): {' -> '.join(b['path'])}", replay=rp))
     for (stream, mode, proj) in spec["streams"]:
         wd = os.path.join(res.workdir, stream)
         t = time.time()
